@@ -277,6 +277,9 @@ class SafeLearner(Learner):
         return method(*args,**kwargs)
 
     def _method2(self,method,args,kwargs):
+        #an arg that is None (e.g., the context of interactions without a context) is None for every row
+        size = SafeLearner.batch_size(args)
+        args = [ [None]*size if a is None and size is not None else a for a in args ]
         pred = [ method(*a,**{k:v[i] for k,v in kwargs.items()}) for i,a in enumerate(zip(*args)) ]
         if not pred:
             raise CobaException(
